@@ -236,12 +236,12 @@ def handle (toks : List String) : String :=
       match splitChunks xs sizes with
       | some cs =>
         let cfg : JCfg := ⟨bs, mode == "f", if mode == "s" then rowsAreObjects else fun _ => true⟩
-        let chunked := runChunks (jFeed cfg) jInit cs
+        let chunked := runChunks (jFeedBulk cfg) jInit cs   -- the bulk loop as written
         let model := showJson cfg mode chunked
         -- no emitted batch may exceed the batch size
         if (chunked.2 ++ (jFinish cfg chunked.1).1).any (fun t => t.curRow > bs) then
           s!"MODEL-SPEC-MISMATCH batch larger than batch_size in {model}"
-        else check model [("single", showJson cfg mode (jFeed cfg jInit xs))]
+        else check model [("single", showJson cfg mode (jFeedBulk cfg jInit xs)), ("bytewise", showJson cfg mode (jFeed cfg jInit xs))]
       | none => "bad-op"
     | _, _, _ => "bad-op"
   | ["csv", bs, header, ncols, hex, chunks] =>
